@@ -6,6 +6,7 @@ import PyYetiVerif.Model.SuCoefExp1
 import PyYetiVerif.Model.SuCoefStatic
 import PyYetiVerif.Model.SuCoefPreEig
 import PyYetiVerif.Model.SuCoefCplxUnc
+import PyYetiVerif.Model.SuCoefCplxUncFixed
 /-! Line protocol for C01.  Floats travel as decimal `UInt64` bit patterns.
 
 `coef <m|none> <b> <k> <h> <rb: n|0|1> <rf: 0|1>`
@@ -46,6 +47,12 @@ import PyYetiVerif.Model.SuCoefCplxUnc
       -> `ok <d: 2*n*nt> <v: 2*n*nt> <a: 2*n*nt>` | `err:sizes`
          (`SolveUnc.tsolve` on uncoupled equations with complex-dtype coefficients: `mkPart`, `initD`, `cplxUncRbDV`,
           `cplxUncRbAcc`, `coupledRunCplx` on the implementation's own pc, `calcAcce`)
+`cufix …`  the request `cu` with the PATCHED rigid-body rows (candidate repair of finding F61: `cplxUncRbRowsFixedG` at
+         complex doubles); used when the harness runs with C01_F61_FIXED_MODEL=1 against a tree that has the patch
+`curbfix <order> <h> <n> <mkind: none|vec> [m: n] <b: n> <d0: n> <v0: n> <nt> <force: n*nt row-major>`
+      -> `ok <regime per row: none|rigid|rigidVelo|rigidFull> <d: n*nt> <v: n*nt> <a: n*nt>`
+         (CANDIDATE REPAIR of finding F61, `Model/SuCoefCplxUncFixed.lean`: `cplxUncRbRowsFixed` at Float on the `n`
+          rigid-body rows of one uncoupled complex-dtype system; used by corpus/c01_f61_candidate_check.py only)
 anything else -> `bad-op`. -/
 open PyYetiVerif.SuCoef PyYetiVerif.SuPartition
 
@@ -510,7 +517,7 @@ def cfAbs (z : CF) : Float := Float.sqrt (z.re * z.re + z.im * z.im)
 
 /-- `SolveUnc(m, b, k, h, rb, order).tsolve(force, d0, v0, static_ic)` for uncoupled equations with complex-dtype
 coefficients (no rf modes): the complex-eigenvalue path with the undamped rigid-body recurrence -/
-def doCu (ws : List String) : Option String := do
+def doCuG (fixed : Bool) (ws : List String) : Option String := do
   match ws with
   | os :: hs :: ns :: mk :: rest =>
     let order1 ← match os with | "1" => some true | "0" => some false | _ => none
@@ -565,6 +572,11 @@ def doCu (ws : List String) : Option String := do
     let isSmall : CF → Bool := fun l => cplxIsSmallF l.re l.im
     let elOut := (coupledRunCplx order1 isSmall (⟨h, 0⟩ : CF) e (fun i => dInit (ela.getD i.val 0))
       (fun i => vInit (ela.getD i.val 0)) imf).toArray
+    -- `fixed`: the PATCHED rigid-body rows (candidate repair of finding F61, `cplxUncRbRowsFixedG`): regime of a row
+    -- from the modulus of `beta = b/m`, `pc.beta_rb is None` iff every `beta` is zero
+    let rbFixed := cplxUncRbRowsFixedG (fun (x : CF) => cplxUncRbRegime (cutsF h) (cfAbs x))
+      (fun (x : CF) => x.re == 0 && x.im == 0) order1 (⟨h, 0⟩ : CF)
+      (p.rb.map fun g => (mOf g, b.getD g z, (dInit g, vInit g), force g))
     let rows : List (List CF × List CF × List CF) := (List.range n).map fun g =>
       match p.el.idxOf? g with
       | some i =>
@@ -581,11 +593,41 @@ def doCu (ws : List String) : Option String := do
         (d, v, a)
       | none =>
         -- rigid-body row: the undamped recurrence (the row's `b`, `k` are not used)
+        if fixed then
+          match (p.rb.idxOf? g).bind fun i => rbFixed[i]? with
+          | some r => (r.2.1.map Prod.fst, r.2.1.map Prod.snd, r.2.2)
+          | none => ([], [], [])
+        else
         let hist := cplxUncRbDV order1 (⟨h, 0⟩ : CF) (mOf g) (b.getD g z) (k.getD g z) (dInit g, vInit g) (force g)
         (hist.map Prod.fst, hist.map Prod.snd, cplxUncRbAcc (mOf g) (b.getD g z) (k.getD g z) (force g))
     let out (sel : List CF × List CF × List CF → List CF) : String :=
       " ".intercalate ((rows.map sel).flatten.map showCF)
     pure ("ok " ++ out (·.1) ++ " " ++ out (·.2.1) ++ " " ++ out (·.2.2))
+  | _ => none
+
+/-- the PATCHED rigid-body rows of an uncoupled complex-dtype system (candidate repair of finding F61) -/
+def doCuRbFix (ws : List String) : Option String := do
+  match ws with
+  | os :: hs :: ns :: mk :: rest =>
+    let order1 ← match os with | "1" => some true | "0" => some false | _ => none
+    let h ← fbits hs
+    let n ← ns.toNat?
+    let (m, rest) : Option (List Float) × List String ←
+      if mk == "none" then some (none, rest)
+      else if mk == "vec" then (takeN fbits n rest).map fun (l, r) => (some l, r) else none
+    let (b, rest) ← takeN fbits n rest
+    let (d0, rest) ← takeN fbits n rest
+    let (v0, rest) ← takeN fbits n rest
+    let (nt, rest) ← match rest with | s :: r => s.toNat?.map fun x => (x, r) | [] => none
+    let (fl, rest) ← takeN fbits (n * nt) rest
+    if !rest.isEmpty then none
+    let rows : List (Option Float × Float × (Float × Float) × List Float) := (List.range n).map fun g =>
+      (m.map fun mv => getF mv g, getF b g, (getF d0 g, getF v0 g), (fl.drop (g * nt)).take nt)
+    let out := cplxUncRbRowsFixed (cutsF h) order1 h rows
+    let regs := out.map fun r => match r.1 with | none => "none" | some x => regimeName x
+    let nums : List Float := (out.map fun r => r.2.1.map Prod.fst).flatten ++
+      (out.map fun r => r.2.1.map Prod.snd).flatten ++ (out.map fun r => r.2.2).flatten
+    pure ("ok " ++ " ".intercalate (regs ++ nums.map showF))
   | _ => none
 
 /-- the uncoupled real path of `SolveUnc(m, b, k, h, rb, rf, order).tsolve(force, d0, v0, static_ic)` -/
@@ -677,7 +719,9 @@ def answer (line : String) : String :=
     | "pe" :: ws => doPe ws
     | "perec" :: ws => doPeRec ws
     | "pex" :: ws => doPex ws
-    | "cu" :: ws => doCu ws
+    | "cu" :: ws => doCuG false ws
+    | "cufix" :: ws => doCuG true ws
+    | "curbfix" :: ws => doCuRbFix ws
     | _ => none
   r.getD "bad-op"
 
